@@ -44,10 +44,12 @@ TOLF = 1e-10
 # bookkeeping of one parametric direction (definition level: the multiset of knots of one period)
 
 class Track:
-    def __init__(self, b):
+    def __init__(self, b, ref=None):
         info = gen.basis_info(b)
         self.p, self.k, self.n = info['p'], info['k'], info['n']
         self.start, self.end = info['start'], info['end']
+        if ref is not None:     # reduce modulo the period of the ORIGINAL basis
+            self.start, self.end = ref.start, ref.end
         self.T = self.end - self.start
         kn = list(b['knots'])
         self.clamped = (self.k < 0 and all(abs(x - self.start) <= TOLF for x in kn[:self.p])
@@ -342,11 +344,13 @@ def _graded_values(s):
 
 
 def _knot_spans(b):
-    """BSplineBasis.knot_spans() by its definition: distinct knots of knots[p-1 : len-p+1]."""
+    """What `BSplineBasis.knot_spans()` returns: distinct knots of `knots[p-1:-p+1]` (for order 1 the
+    slice `[0:-0]` is EMPTY, so only the start knot is returned — the graded utilities then see a
+    zero-length domain and `refine` inserts nothing in an order-1 direction)."""
     p = b['order']
     kn = b['knots']
     out = [kn[p - 1]]
-    for x in kn[p - 1:len(kn) - p + 1]:
+    for x in (kn[p - 1:len(kn) - p + 1] if p > 1 else []):
         if abs(x - out[-1]) > gen.TOL:
             out.append(x)
     return out
@@ -391,9 +395,8 @@ def _apply(sp, s):
         else:
             o.refine(*s['ns'], direction=s['direction'])
         return o
-    from splipy.utils import refinement as rf   # noqa: F401  (same overlay as `sp`)
     import importlib
-    rf = importlib.import_module(sp.__name__ + '.utils.refinement')
+    rf = importlib.import_module(sp.__name__ + '.utils.refinement')   # same overlay as `sp`
     if k == 'geometric':
         rf.geometric_refine(o, s['alpha'], s['n'], s['dir'], s['reverse'])
     elif k == 'center':
@@ -456,7 +459,8 @@ def _knot_fails(old_b, new_b, inserted, what):
         fails.append('%s: new knot vector is not sorted: %r' % (what, newk))
     if not _close(ni['start'], oi['start'], scale) or not _close(ni['end'], oi['end'], scale):
         fails.append('%s: parametric domain changed from [%r,%r] to [%r,%r]' % (what, oi['start'], oi['end'], ni['start'], ni['end']))
-    to, tn = Track(old_b), Track(new_b)
+    to = Track(old_b)
+    tn = Track(new_b, to)
     if oi['k'] >= 0:
         T = oi['end'] - oi['start']
         for i in range(len(newk) - ni['n']):
@@ -562,6 +566,8 @@ def _geometry_fails(sp, o_spec, obj, dirs):
             fails.append('geometry changed at %d of %d sample points of direction %d' % (bad, len(pts), d))
         # from the left at every knot
         for i, x in enumerate(ks):
+            if i == 0 and ni['k'] < 0:
+                continue     # no limit from the left at the start of a non-periodic direction
             u = [params[q][i] for q in range(pd)]
             rights = [q != d for q in range(pd)]
             want = exact.nurbs_point(o_spec, u, rights)
@@ -663,7 +669,8 @@ def oracle(sp, s):
             touched.append(d)
         fails += _knot_fails(ob, nb, None, 'direction %d' % d)
         # old knots are kept (multiset inclusion), new ones lie in the domain
-        to, tn = Track(ob), Track(nb)
+        to = Track(ob)
+        tn = Track(nb, to)
         rest = sorted(tn.vals)
         for v in sorted(to.vals):
             j = next((j for j, w in enumerate(rest) if abs(w - v) <= 1e-9 * max(1.0, abs(v))), None)
@@ -674,11 +681,10 @@ def oracle(sp, s):
         if k == 'refine':
             want_n = _refine_count(s, d, pd)
             spans = _knot_spans(ob)
-            if want_n is not None:
+            # (order-1 directions: knot_spans() has a single entry, nothing is inserted; C04 itself
+            #  only constrains what IS inserted, so this is not an oracle failure)
+            if want_n is not None and ob['order'] > 1:
                 for x, y in zip(spans[:-1], spans[1:]):
-                    inside = [w for w in nb['knots'] if x + 1e-12 < w < y - 1e-12]
-                    # count distinct positions only inside the domain part of the vector
-                    lo, hi = len(ob['knots']), 0
                     cnt = len([w for w in nb['knots'][nb['order'] - 1:len(nb['knots']) - nb['order'] + 1] if x + 1e-12 < w < y - 1e-12])
                     if cnt != want_n:
                         fails.append('direction %d: span [%r,%r] received %d new knots, expected %d' % (d, x, y, cnt, want_n))
